@@ -23,7 +23,7 @@ CHECKS = {
    technique="deterministic simulation: exhaustive permutation/duplication enumeration + seeded sampling against a reference reassembler"),
  "C16": dict(level="exploration", design="§5 C16",
    text="Close (1-4 concurrent callers), deadlines and cleartext fatal alerts are placed at every controller step of 13 handshake variants and 13 data-phase configurations (with and without a Write blocked in the transport), then sampled with expired deadlines, loss and yield-point schedules. Checks: every call returns, error classes, at most one and (where owed) exactly one close_notify on the wire, peer EOF, deadline timing, and no goroutine survives the bubble.",
-   note="close_notify counting is decided on the wire for DTLS 1.2 without connection IDs and through the reference decoder for connection-ID layouts and DTLS 1.3 of established sessions (not for CBC with connection IDs, whose MAC the reference cannot check because of finding F10); a race-detector tier is not part of the quick check. A transport that never completes any write is outside the stated quantifier and not simulated.",
+   note="close_notify counting is decided on the wire for DTLS 1.2 without connection IDs and through the reference decoder for connection-ID layouts and DTLS 1.3 of established sessions (not for CBC with connection IDs, whose MAC the reference cannot check because of finding F10); the thorough command adds a race-detector tier (the sampled plans, with concurrent state accessors, in a -race build for five minutes; reports do not replay); the quick command has none. A transport that never completes any write is outside the stated quantifier and not simulated.",
    technique="deterministic simulation: action placement at every controller step + seeded schedule/fault sampling, synctest end-of-bubble leak detection"),
  "C19": dict(level="fault_enumeration", design="§5 C19",
    text="The exporting endpoint is crashed (socket severed, no Close) at every prefix (i,j) of records, i,j <= 4, on either side, for every DTLS 1.2 configuration, and restarted from the serialised bytes on a new socket at the same address; sampled runs add longer prefixes, datagrams in flight, and corruption of the bytes. The untouched peer is the judge: data flows both ways, keying material and parameters are equal, record numbers continue.",
